@@ -109,3 +109,32 @@ func DevPlain(name string) string {
 	}
 	return sb.String()
 }
+
+// DevGen prints the stripped program of a generated case id with line numbers and its diagnostics.
+func DevGen(tier string, seed uint64, id string) string {
+	var sb strings.Builder
+	for _, c := range (c03{}).Cases(tier, seed) {
+		if c.ID != id {
+			continue
+		}
+		var p Payload
+		fw.Decode(c, &p)
+		parsed, err := mutate.Parse(p.Mods)
+		if err != nil {
+			return err.Error()
+		}
+		for mod, src := range parsed.Plain {
+			fmt.Fprintf(&sb, "--- %s\n", mod)
+			for i, l := range strings.Split(src, "\n") {
+				fmt.Fprintf(&sb, "%3d %s\n", i+1, l)
+			}
+		}
+		src := drive.Sources{}
+		for k, v := range parsed.Plain {
+			src[k] = v
+		}
+		out, pv := analyze(src, p.Main)
+		fmt.Fprintf(&sb, "errors=%d panic=%v\n%s\n", out.Errors, pv, strings.ReplaceAll(out.ErrorSummary(), "; ", "\n"))
+	}
+	return sb.String()
+}
